@@ -7,8 +7,13 @@
    What is proved: for ALL inputs, the *modelled* allocation sources (thread-context creation,
    InlinedVector growth, unbounded-queue node allocation / shrink, the argument's own copy
    constructor / fs::path::string(), and - found by the runtime part, then modelled - the
-   temporary std::pair a map codec makes of every element) are silent in a steady-state call, and only Direct arguments
-   are formatted in a frontend step.  What is NOT proved: that the real code has no other
+   temporary std::pair a map codec made of every element) are silent in a steady-state call, and only Direct arguments
+   are formatted in a frontend step.
+   The model carries a code-variant flag map_copies (first argument of log_step / t_step / t_run /
+   reachable): false = the repaired map codecs (Codec<Key> / Codec<T> on elem.first / elem.second, no
+   temporary), true = the pinned earlier ones (finding C11-F1: every element converted to a temporary
+   std::pair<Key, T>).  The variant that stands for the source tree is TieC11.src_map_copies (T-src,
+   C11_tie_map_codecs: it is false).  What is NOT proved: that the real code has no other
    allocation source (a temporary inside a codec, inside libfmt, inside a macro).  That part is
    sampled on the real binary by harness/alloc.cpp (props/c11.py). *)
 From Coq Require Import List NArith Bool String.
@@ -41,81 +46,138 @@ Proof.
 Qed.
 Print Assumptions C11_tie_code_shape.
 
+(* the map codecs of the source are the repaired ones: compute_encoded_size / encode of std/Map.h and
+   std/UnorderedMap.h reach the members of an element in place (the four bodies are pinned), so the
+   variant of the model that stands for the source is map_copies = false.  (On a tree without the
+   repair TieC11 does not compile and nothing below is discharged.) *)
+Theorem C11_tie_map_codecs :
+  SrcFacts.c11_map_elems_in_place = true /\ src_map_copies = false /\
+  SrcFacts.sk_c11_map_codec_bodies =
+  [expected_map_size_body; expected_map_encode_body; expected_map_size_body; expected_map_encode_body].
+Proof. exact (conj src_map_elems_in_place (conj src_map_copies_false src_map_codec_bodies)). Qed.
+Print Assumptions C11_tie_map_codecs.
+
 (* ------------------------------------------------------------------ the property, modelled part *)
-(* For every frontend configuration, every state [s] a thread can reach by any sequence of
+(* For the variant of the code the source tree selects (src_map_copies; C11_tie_map_codecs: false),
+   every frontend configuration, every state [s] a thread can reach by any sequence of
    preallocate / log / shrink / backend-drain operations, every argument list [ts] / [vs] over
-   the type universe of M-CODEC (arbitrary nesting) and with or without a dynamic level:
+   the type universe of M-CODEC (arbitrary nesting, std::map / unordered_map of strings, containers
+   and nested maps included) and with or without a dynamic level:
      registered (after the first log call or preallocate())
      -> the statement pushes at most INLINE_CAP (= 12) lengths into the size cache
      -> its encoded size (header + arguments + level) is granted by the current queue buffer
      -> no argument type contains a not trivially copyable deferred type or a filesystem path
-     -> every std::map / unordered_map inside the argument types has arithmetic key and mapped type, or a
-        key and a mapped type whose copies cannot allocate  (this hypothesis is NOT in the property:
-        the code copies every element of other maps at the call site, see C11_steady_no_alloc_refuted_map)
      -> the call allocates nothing (modelled sources) and the statement is enqueued. *)
 Theorem C11_steady_no_alloc : forall cf s ts vs dyn,
-  reachable cf s -> t_reg s = true ->
+  reachable src_map_copies cf s -> t_reg s = true ->
   N.of_nat (stmt_cached ts vs) <= INLINE_CAP ->
   fits (t_node s) (stmt_total ts vs dyn) = true ->
-  forallb no_excluded ts = true -> forallb map_ok ts = true ->
-  allocs (snd (log_step cf s ts vs dyn)) = [] /\ res (snd (log_step cf s ts vs dyn)) = LEnqueued.
-Proof. exact steady_no_alloc_reachable. Qed.
+  forallb no_excluded ts = true ->
+  allocs (snd (log_step src_map_copies cf s ts vs dyn)) = [] /\
+  res (snd (log_step src_map_copies cf s ts vs dyn)) = LEnqueued.
+Proof. exact steady_no_alloc_code_variant. Qed.
 Print Assumptions C11_steady_no_alloc.
 
 (* the same with the *current* capacity of the cache instead of the inline one: once a thread has
    logged a statement with k > 12 lengths, statements up to the grown capacity are silent too *)
 Theorem C11_steady_no_alloc_capacity : forall cf s ts vs dyn,
-  reachable cf s -> t_reg s = true ->
+  reachable src_map_copies cf s -> t_reg s = true ->
+  N.of_nat (stmt_cached ts vs) <= iv_cap (t_cache s) ->
+  fits (t_node s) (stmt_total ts vs dyn) = true ->
+  forallb no_excluded ts = true ->
+  allocs (snd (log_step src_map_copies cf s ts vs dyn)) = [] /\
+  res (snd (log_step src_map_copies cf s ts vs dyn)) = LEnqueued /\
+  iv_cap (t_cache (fst (log_step src_map_copies cf s ts vs dyn))) = iv_cap (t_cache s).
+Proof. exact steady_no_alloc_cap_code_variant. Qed.
+Print Assumptions C11_steady_no_alloc_capacity.
+
+(* the same two statements with the flag spelled out (repaired variant), and: the variant changes
+   what a step allocates, never the state it leaves - both variants reach the same states *)
+Theorem C11_steady_no_alloc_repaired : forall cf s ts vs dyn,
+  reachable false cf s -> t_reg s = true ->
+  N.of_nat (stmt_cached ts vs) <= INLINE_CAP ->
+  fits (t_node s) (stmt_total ts vs dyn) = true ->
+  forallb no_excluded ts = true ->
+  allocs (snd (log_step false cf s ts vs dyn)) = [] /\ res (snd (log_step false cf s ts vs dyn)) = LEnqueued.
+Proof. exact steady_no_alloc_reachable. Qed.
+Print Assumptions C11_steady_no_alloc_repaired.
+
+Theorem C11_variant_same_states : forall mc cf,
+  (forall s, reachable mc cf s <-> reachable false cf s) /\
+  (forall s ts vs dyn, fst (log_step mc cf s ts vs dyn) = fst (log_step false cf s ts vs dyn) /\
+     res (snd (log_step mc cf s ts vs dyn)) = res (snd (log_step false cf s ts vs dyn)) /\
+     fmts (snd (log_step mc cf s ts vs dyn)) = fmts (snd (log_step false cf s ts vs dyn))).
+Proof. exact (fun mc cf => conj (reachable_variant mc cf) (log_step_state_variant mc cf)). Qed.
+Print Assumptions C11_variant_same_states.
+
+(* ------------------------------------------------------------------ the pinned variant (finding C11-F1, fixed by the repair) *)
+(* PARTIAL, pinned variant (map_copies = true): what held of the code before the repair.  The extra
+   hypothesis - every std::map / unordered_map inside the argument types has arithmetic key and mapped
+   type, or a key and a mapped type whose copies cannot allocate - is NOT in the property: that code
+   copied every element of other maps at the call site (C11_steady_no_alloc_refuted_map). *)
+Theorem C11_steady_no_alloc_pinned_partial : forall cf s ts vs dyn,
+  reachable true cf s -> t_reg s = true ->
+  N.of_nat (stmt_cached ts vs) <= INLINE_CAP ->
+  fits (t_node s) (stmt_total ts vs dyn) = true ->
+  forallb no_excluded ts = true -> forallb map_ok ts = true ->
+  allocs (snd (log_step true cf s ts vs dyn)) = [] /\ res (snd (log_step true cf s ts vs dyn)) = LEnqueued.
+Proof. exact steady_no_alloc_reachable_pinned. Qed.
+Print Assumptions C11_steady_no_alloc_pinned_partial.
+
+Theorem C11_steady_no_alloc_capacity_pinned_partial : forall cf s ts vs dyn,
+  reachable true cf s -> t_reg s = true ->
   N.of_nat (stmt_cached ts vs) <= iv_cap (t_cache s) ->
   fits (t_node s) (stmt_total ts vs dyn) = true ->
   forallb no_excluded ts = true -> forallb map_ok ts = true ->
-  allocs (snd (log_step cf s ts vs dyn)) = [] /\ res (snd (log_step cf s ts vs dyn)) = LEnqueued /\
-  iv_cap (t_cache (fst (log_step cf s ts vs dyn))) = iv_cap (t_cache s).
-Proof. exact (fun cf s ts vs dyn Hre Hr => steady_no_alloc_cap cf s ts vs dyn Hr (reachable_wf cf s Hre)). Qed.
-Print Assumptions C11_steady_no_alloc_capacity.
+  allocs (snd (log_step true cf s ts vs dyn)) = [] /\ res (snd (log_step true cf s ts vs dyn)) = LEnqueued /\
+  iv_cap (t_cache (fst (log_step true cf s ts vs dyn))) = iv_cap (t_cache s).
+Proof. exact (fun cf s ts vs dyn Hre Hr => steady_no_alloc_cap_pinned cf s ts vs dyn Hr (reachable_wf true cf s Hre)). Qed.
+Print Assumptions C11_steady_no_alloc_capacity_pinned_partial.
 
-(* ------------------------------------------------------------------ refutation (finding C11-F1) *)
-(* the property as stated ("standard containers ... of those") is false of the faithful model:
-   std::map<uint32_t, std::string> with a 16-character string, registered thread, nothing cached,
-   fits, listed kinds only - and the call copies the string twice into a temporary std::pair.
-   Replayed on the real code by corpus/C11/f1_map_string.case. *)
+(* refutation of the full-strength statement for the PINNED variant (finding C11-F1, kept as
+   documentation of the behaviour before the repair): std::map<uint32_t, std::string> with a
+   16-character string, registered thread, nothing cached, fits, listed kinds only - and the pinned
+   call copies the string twice into a temporary std::pair; the repaired call allocates nothing.
+   Replayed on the real code by corpus/C11/f1_map_string.case (which must now be silent). *)
 Theorem C11_steady_no_alloc_refuted_map :
   let s := after_pre ex_bounded in
-  reachable ex_bounded s /\ t_reg s = true /\ wt_zip (map wt rf11_ts) rf11_vs /\
+  reachable true ex_bounded s /\ t_reg s = true /\ wt_zip (map wt rf11_ts) rf11_vs /\
   stmt_cached rf11_ts rf11_vs = 0%nat /\ fits (t_node s) (stmt_total rf11_ts rf11_vs false) = true /\
   forallb no_excluded rf11_ts = true /\ forallb map_ok rf11_ts = false /\
-  allocs (snd (log_step ex_bounded s rf11_ts rf11_vs false)) = [ATempCopy Str (VB (repeat 97 16)); ATempCopy Str (VB (repeat 97 16))].
+  allocs (snd (log_step true ex_bounded s rf11_ts rf11_vs false)) = [ATempCopy Str (VB (repeat 97 16)); ATempCopy Str (VB (repeat 97 16))] /\
+  allocs (snd (log_step false ex_bounded s rf11_ts rf11_vs false)) = [].
 Proof. exact steady_no_alloc_refuted_map. Qed.
 Print Assumptions C11_steady_no_alloc_refuted_map.
 
 (* "registered" is what the first log call or preallocate() establishes, for good; the size the
-   queue is asked for is the statement size of C04 (reserved = written = consumed) *)
-Theorem C11_registered_after_first_call : forall cf s,
-  t_reg (fst (t_step cf s OPre)) = true /\
-  (forall ts vs dyn, t_reg (fst (t_step cf s (OLog ts vs dyn))) = true) /\
-  (forall o, t_reg s = true -> t_reg (fst (t_step cf s o)) = true) /\
-  (forall ts vs dyn cache0, reserved (snd (log_step cf s ts vs dyn)) = stmt_total ts vs dyn /\
+   queue is asked for is the statement size of C04 (reserved = written = consumed).  Both variants
+   ([mc]); so are the theorems below that quantify over [mc]. *)
+Theorem C11_registered_after_first_call : forall mc cf s,
+  t_reg (fst (t_step mc cf s OPre)) = true /\
+  (forall ts vs dyn, t_reg (fst (t_step mc cf s (OLog ts vs dyn))) = true) /\
+  (forall o, t_reg s = true -> t_reg (fst (t_step mc cf s o)) = true) /\
+  (forall ts vs dyn cache0, reserved (snd (log_step mc cf s ts vs dyn)) = stmt_total ts vs dyn /\
      stmt_total ts vs dyn = fst (stmt_reserved true cache0 ts vs (if dyn then Some 0 else None))).
 Proof.
-  exact (fun cf s => conj (proj1 (registered_after_first cf s)) (conj (proj2 (registered_after_first cf s))
-        (conj (fun o => t_step_reg_mono cf s o)
-              (fun ts vs dyn cache0 => conj (log_step_total cf s ts vs dyn) (stmt_total_codec ts vs dyn cache0))))).
+  exact (fun mc cf s => conj (proj1 (registered_after_first mc cf s)) (conj (proj2 (registered_after_first mc cf s))
+        (conj (fun o => t_step_reg_mono mc cf s o)
+              (fun ts vs dyn cache0 => conj (log_step_total mc cf s ts vs dyn) (stmt_total_codec ts vs dyn cache0))))).
 Qed.
 Print Assumptions C11_registered_after_first_call.
 
 (* ------------------------------------------------------------------ non-vacuity / the boundary *)
 (* the first call of a thread (and preallocate()) does allocate *)
-Theorem C11_first_call_allocates : forall cf s ts vs dyn, t_reg s = false ->
-  In ACtx (allocs (snd (log_step cf s ts vs dyn))) /\ In ACtx (allocs (snd (t_step cf s OPre))).
+Theorem C11_first_call_allocates : forall mc cf s ts vs dyn, t_reg s = false ->
+  In ACtx (allocs (snd (log_step mc cf s ts vs dyn))) /\ In ACtx (allocs (snd (t_step mc cf s OPre))).
 Proof. exact first_call_allocates. Qed.
 Print Assumptions C11_first_call_allocates.
 
 (* more cached lengths than the cache holds, in a statement that clears the cache: it allocates *)
-Theorem C11_over_capacity_allocates : forall cf s ts vs dyn,
-  reachable cf s -> t_reg s = true -> needs_clear ts = true ->
+Theorem C11_over_capacity_allocates : forall mc cf s ts vs dyn,
+  reachable mc cf s -> t_reg s = true -> needs_clear ts = true ->
   iv_cap (t_cache s) < N.of_nat (stmt_cached ts vs) ->
-  exists newcap, In (AIvGrow newcap) (allocs (snd (log_step cf s ts vs dyn))).
-Proof. exact (fun cf s ts vs dyn Hre Hr => over_capacity_allocates cf s ts vs dyn Hr (reachable_wf cf s Hre)). Qed.
+  exists newcap, In (AIvGrow newcap) (allocs (snd (log_step mc cf s ts vs dyn))).
+Proof. exact (fun mc cf s ts vs dyn Hre Hr => over_capacity_allocates mc cf s ts vs dyn Hr (reachable_wf mc cf s Hre)). Qed.
 Print Assumptions C11_over_capacity_allocates.
 
 (* twelve C strings do not allocate, thirteen do - also when the thirteen lengths come from one
@@ -123,60 +185,60 @@ Print Assumptions C11_over_capacity_allocates.
    C-string arguments" although it is a single listed argument *)
 Theorem C11_vector_of_13_cstrings_allocates :
   let s := after_pre ex_bounded in
-  allocs (snd (log_step ex_bounded s (repeat CStr 12) (repeat (cstr 20) 12) false)) = [] /\
-  allocs (snd (log_step ex_bounded s (repeat CStr 13) (repeat (cstr 20) 13) false)) = [AIvGrow 24] /\
+  allocs (snd (log_step false ex_bounded s (repeat CStr 12) (repeat (cstr 20) 12) false)) = [] /\
+  allocs (snd (log_step false ex_bounded s (repeat CStr 13) (repeat (cstr 20) 13) false)) = [AIvGrow 24] /\
   forallb no_excluded [Vec CStr] = true /\ cached_lengths (Vec CStr) (VL (repeat (cstr 3) 13)) = 13%nat /\
   fits (t_node s) (stmt_total [Vec CStr] [VL (repeat (cstr 3) 13)] false) = true /\
-  allocs (snd (log_step ex_bounded s [Vec CStr] [VL (repeat (cstr 3) 13)] false)) = [AIvGrow 24] /\
-  allocs (snd (log_step ex_bounded s [Vec CStr] [VL (repeat (cstr 3) 12)] false)) = [].
+  allocs (snd (log_step false ex_bounded s [Vec CStr] [VL (repeat (cstr 3) 13)] false)) = [AIvGrow 24] /\
+  allocs (snd (log_step false ex_bounded s [Vec CStr] [VL (repeat (cstr 3) 12)] false)) = [].
 Proof. exact twelve_fit_thirteen_allocate. Qed.
 Print Assumptions C11_vector_of_13_cstrings_allocates.
 
 (* clear() keeps the grown buffer: the same 13-length statement is silent the second time *)
 Theorem C11_grown_cache_is_kept :
-  let s1 := fst (log_step ex_bounded (after_pre ex_bounded) (repeat CStr 13) (repeat (cstr 20) 13) false) in
+  let s1 := fst (log_step false ex_bounded (after_pre ex_bounded) (repeat CStr 13) (repeat (cstr 20) 13) false) in
   iv_cap (t_cache s1) = 24 /\
-  allocs (snd (log_step ex_bounded s1 (repeat CStr 13) (repeat (cstr 20) 13) false)) = [] /\
-  iv_cap (t_cache (fst (log_step ex_bounded s1 [CStr] [cstr 1] false))) = 24.
+  allocs (snd (log_step false ex_bounded s1 (repeat CStr 13) (repeat (cstr 20) 13) false)) = [] /\
+  iv_cap (t_cache (fst (log_step false ex_bounded s1 [CStr] [cstr 1] false))) = 24.
 Proof. exact grown_cache_is_kept. Qed.
 Print Assumptions C11_grown_cache_is_kept.
 
 (* the queue: a record that does not fit the current node of an unbounded queue allocates a node
    (when the doubled capacity is allowed); a bounded queue never allocates in a log call *)
-Theorem C11_queue_growth : forall cf s ts vs dyn, t_reg s = true ->
+Theorem C11_queue_growth : forall mc cf s ts vs dyn, t_reg s = true ->
   (c_unbounded cf = true -> fits (t_node s) (stmt_total ts vs dyn) = false ->
    c_max cf <? grow_cap 64 (n_cap (t_node s) * 2) (stmt_total ts vs dyn) = false ->
-   exists cap, In (ANode cap) (allocs (snd (log_step cf s ts vs dyn)))) /\
-  (c_unbounded cf = false -> forall a, In a (allocs (snd (log_step cf s ts vs dyn))) ->
+   exists cap, In (ANode cap) (allocs (snd (log_step mc cf s ts vs dyn)))) /\
+  (c_unbounded cf = false -> forall a, In a (allocs (snd (log_step mc cf s ts vs dyn))) ->
    match a with ANode _ | AShrinkNode _ | AThrowMsg | ACtx => False | _ => True end).
 Proof.
-  exact (fun cf s ts vs dyn Hr => conj (fun Hu => no_fit_grows cf s ts vs dyn Hr Hu)
-                                       (fun Hb => bounded_never_grows cf s ts vs dyn Hb Hr)).
+  exact (fun mc cf s ts vs dyn Hr => conj (fun Hu => no_fit_grows mc cf s ts vs dyn Hr Hu)
+                                          (fun Hb => bounded_never_grows mc cf s ts vs dyn Hb Hr)).
 Qed.
 Print Assumptions C11_queue_growth.
 
 (* exact fit / miss by one / after the backend drained / shrink, computed on the model *)
 Theorem C11_fit_boundary :
-  let s := fst (t_run ex_unbounded (t_init ex_unbounded) [OPre; fill (2048 - 100 - 36)]) in
+  let s := fst (t_run false ex_unbounded (t_init ex_unbounded) [OPre; fill (2048 - 100 - 36)]) in
   stmt_total [StrView] [VB (repeat 120 64)] false = 100 /\
   fits (t_node s) 100 = true /\ fits (t_node s) 101 = false /\
-  allocs (snd (log_step ex_unbounded s [StrView] [VB (repeat 120 64)] false)) = [] /\
-  allocs (snd (log_step ex_unbounded s [StrView] [VB (repeat 120 65)] false)) = [ANode 4096] /\
-  allocs (snd (log_step ex_unbounded (fst (t_step ex_unbounded s ODrain)) [StrView] [VB (repeat 120 65)] false)) = [] /\
-  allocs (snd (t_step ex_unbounded s (OShrink 1024))) = [AShrinkNode 1024] /\
-  allocs (snd (t_step ex_unbounded s (OShrink 2048))) = [] /\
-  (let b := fst (t_run ex_bounded (t_init ex_bounded) [OPre; fill (8192 - 100 - 36)]) in
-   allocs (snd (log_step ex_bounded b [StrView] [VB (repeat 120 65)] false)) = [] /\
-   res (snd (log_step ex_bounded b [StrView] [VB (repeat 120 65)] false)) = LDropped).
+  allocs (snd (log_step false ex_unbounded s [StrView] [VB (repeat 120 64)] false)) = [] /\
+  allocs (snd (log_step false ex_unbounded s [StrView] [VB (repeat 120 65)] false)) = [ANode 4096] /\
+  allocs (snd (log_step false ex_unbounded (fst (t_step false ex_unbounded s ODrain)) [StrView] [VB (repeat 120 65)] false)) = [] /\
+  allocs (snd (t_step false ex_unbounded s (OShrink 1024))) = [AShrinkNode 1024] /\
+  allocs (snd (t_step false ex_unbounded s (OShrink 2048))) = [] /\
+  (let b := fst (t_run false ex_bounded (t_init ex_bounded) [OPre; fill (8192 - 100 - 36)]) in
+   allocs (snd (log_step false ex_bounded b [StrView] [VB (repeat 120 65)] false)) = [] /\
+   res (snd (log_step false ex_bounded b [StrView] [VB (repeat 120 65)] false)) = LDropped).
 Proof. exact fit_boundary. Qed.
 Print Assumptions C11_fit_boundary.
 
 (* the excluded kinds are allocation sources of the model (so the exclusion is visible) *)
 Theorem C11_excluded_kinds_allocate :
   let s := after_pre ex_bounded in
-  allocs (snd (log_step ex_bounded s [DeferredAligned 40 8] [VB (repeat 1 40)] false)) = [AUserCopy 40 8] /\
-  allocs (snd (log_step ex_bounded s [Path] [VB (repeat 47 30)] false)) = [APathString 30; APathString 30] /\
-  allocs (snd (log_step ex_bounded s [Vec (Opt Path)] [VL [VO (Some (VB (repeat 47 30)))]] false)) = [APathString 30; APathString 30].
+  allocs (snd (log_step false ex_bounded s [DeferredAligned 40 8] [VB (repeat 1 40)] false)) = [AUserCopy 40 8] /\
+  allocs (snd (log_step false ex_bounded s [Path] [VB (repeat 47 30)] false)) = [APathString 30; APathString 30] /\
+  allocs (snd (log_step false ex_bounded s [Vec (Opt Path)] [VL [VO (Some (VB (repeat 47 30)))]] false)) = [APathString 30; APathString 30].
 Proof. exact excluded_kinds_allocate. Qed.
 Print Assumptions C11_excluded_kinds_allocate.
 
@@ -185,9 +247,9 @@ Print Assumptions C11_excluded_kinds_allocate.
    leaves; a statement without a direct-format type formats nothing on the caller; the backend
    step formats every argument.  Every other kind - in particular every deferred-format kind -
    has formats_on_caller = false. *)
-Theorem C11_format_on_backend : forall cf s ts vs dyn,
-  Forall (fun e => e = (Caller, Direct)) (frontend_fmt_events cf s ts vs dyn) /\
-  (forallb (fun t => negb (has_direct t)) ts = true -> frontend_fmt_events cf s ts vs dyn = []) /\
+Theorem C11_format_on_backend : forall mc cf s ts vs dyn,
+  Forall (fun e => e = (Caller, Direct)) (frontend_fmt_events mc cf s ts vs dyn) /\
+  (forallb (fun t => negb (has_direct t)) ts = true -> frontend_fmt_events mc cf s ts vs dyn = []) /\
   (forall t, In t ts -> In (Backend, t) (backend_fmt_events ts)).
 Proof. exact format_on_backend. Qed.
 Print Assumptions C11_format_on_backend.
@@ -221,24 +283,35 @@ Print Assumptions iv_clear_keeps_capacity.
 
 (* ------------------------------------------------------------------ non-vacuity *)
 (* a reachable, registered state and a well-typed ten-argument nested statement (with a dynamic level,
-   10 cached lengths, a 40-byte std::string, a map with copy-free key and mapped type, a
-   direct-format element) satisfy every hypothesis of C11_steady_no_alloc *)
+   10 cached lengths, a 40-byte std::string, a std::map<std::string, ..> with a 20-byte key - so
+   map_ok is false -, a direct-format element) satisfy every hypothesis of C11_steady_no_alloc
+   (repaired variant) *)
 Example C11_nonvacuous :
-  reachable ex_unbounded (after_pre ex_unbounded) /\ t_reg (after_pre ex_unbounded) = true /\
+  reachable false ex_unbounded (after_pre ex_unbounded) /\ t_reg (after_pre ex_unbounded) = true /\
   wt_zip (map wt ex11_ts) ex11_vs /\
   stmt_cached ex11_ts ex11_vs = 10%nat /\
   fits (t_node (after_pre ex_unbounded)) (stmt_total ex11_ts ex11_vs true) = true /\
-  forallb no_excluded ex11_ts = true /\ forallb map_ok ex11_ts = true /\ existsb has_direct ex11_ts = true /\
-  allocs (snd (log_step ex_unbounded (after_pre ex_unbounded) ex11_ts ex11_vs true)) = [].
+  forallb no_excluded ex11_ts = true /\ forallb map_ok ex11_ts = false /\ existsb has_direct ex11_ts = true /\
+  allocs (snd (log_step false ex_unbounded (after_pre ex_unbounded) ex11_ts ex11_vs true)) = [].
 Proof. exact steady_no_alloc_nonvacuous. Qed.
 
+(* the hypotheses of the pinned statement are satisfiable too (the map keyed by an integer) *)
+Example C11_nonvacuous_pinned :
+  reachable true ex_unbounded (after_pre ex_unbounded) /\ t_reg (after_pre ex_unbounded) = true /\
+  wt_zip (map wt ex11p_ts) ex11p_vs /\
+  stmt_cached ex11p_ts ex11p_vs = 10%nat /\
+  fits (t_node (after_pre ex_unbounded)) (stmt_total ex11p_ts ex11p_vs true) = true /\
+  forallb no_excluded ex11p_ts = true /\ forallb map_ok ex11p_ts = true /\ existsb has_direct ex11p_ts = true /\
+  allocs (snd (log_step true ex_unbounded (after_pre ex_unbounded) ex11p_ts ex11p_vs true)) = [].
+Proof. exact steady_no_alloc_nonvacuous_pinned. Qed.
+
 Example C11_direct_formats_on_caller :
-  frontend_fmt_events ex_bounded (after_pre ex_bounded) [Arith 4; Direct; DeferredPOD 8; Vec Direct]
+  frontend_fmt_events false ex_bounded (after_pre ex_bounded) [Arith 4; Direct; DeferredPOD 8; Vec Direct]
     [VB [1; 0; 0; 0]; VB [65]; VB (repeat 0 8); VL [VB [66]; VB [67]]] false
   = repeat (Caller, Direct) 6.
 Proof. exact direct_formats_on_caller. Qed.
 
 Example C11_oversize_throws :
-  let out := snd (log_step ex_unbounded (after_pre ex_unbounded) [StrView] [VB (repeat 120 (N.to_nat 70000))] false) in
+  let out := snd (log_step false ex_unbounded (after_pre ex_unbounded) [StrView] [VB (repeat 120 (N.to_nat 70000))] false) in
   allocs out = [AThrowMsg] /\ res out = LThrow.
 Proof. exact oversize_throws. Qed.
